@@ -631,6 +631,9 @@ func findRefSegMeta(a *asset, cfg *ResponseConfig, segmentPart string, nowMS int
 	switch cfg.getRepType(segmentPart) {
 	case segmentNumber, timeLineNumber:
 		outSegNr := uint32(segID)
+		if outSegNr < uint32(cfg.getStartNr()) {
+			return refMeta, errNotFound
+		}
 		refMeta, err = findSegMetaFromNr(a, a.refRep, outSegNr, cfg, nowMS)
 		if err != nil {
 			return refMeta, fmt.Errorf("findSegMetaFromNr from reference: %w", err)
